@@ -130,6 +130,7 @@ structure Th where
   -- monitor / cleaner: registers
   hasDet : Bool := false
   todo : Nat := 0           -- cleaner: listed tags still to remove
+  svcFails : Bool := false  -- cleaner: removing the node from a service fails (version mismatch, permissions, …)
   raw : Option PState := none
   listed : Option ListV := none
   res : Option CRes := none
@@ -277,7 +278,8 @@ def cleanerStep (fs : FS) (t : Th) : Option (FS × Th × String) :=
             (if fs.ol.linked then fin .anotherInstance "setlk ol" else fin .alreadyCleanedUp "setlk ol")   -- EAGAIN; nlink == 0 → DoesNotExist
           else some ({ fs with ol := { fs.ol with lock := some p } }, { t with pc := 25 }, "setlk ol")
   -- service tags (none modelled), port tags: listing = the tags with final permissions
-  | 25 => some (fs, { t with pc := 26 }, "readdir dir")
+  -- a failing service-level removal: `cleanup_failure?` (node/mod.rs:661) returns while the cleaner is a live local: it is DROPPED
+  | 25 => some (fs, { t with pc := if t.svcFails then 31 else 26 }, "readdir dir")
   | 26 => some (fs, cleanerNorm { t with pc := 27, todo := fs.tags }, "readdir dir")
   | 27 => some ({ fs with tags := fs.tags - 1 }, cleanerNorm { t with pc := 27, todo := t.todo - 1 }, "unlink tag")
   -- remove_node: listed details (final permission only), directory
@@ -295,7 +297,7 @@ def cleanerStep (fs : FS) (t : Th) : Option (FS × Th × String) :=
   | 36 => some ({ fs with ol := fs.ol.closeBy p }, { t with pc := 37 }, "close ol")
   | 37 => some ({ fs with ctx := { fs.ctx with perm := .final } }, { t with pc := 38 }, "fchmod ctx final")
   | 38 => some ({ fs with ctx := { fs.ctx with linked := false } }, { t with pc := 39 }, "unlink ctx")
-  | 39 => some ({ fs with ctx := fs.ctx.closeBy p }, { t with pc := pcDone, res := some .ok }, "close ctx")
+  | 39 => some ({ fs with ctx := fs.ctx.closeBy p }, { t with pc := pcDone, res := some (if t.svcFails then .internalError else .ok) }, "close ctx")
   -- abandon (process_state.rs:672-696): close the three descriptors, remove nothing
   | 40 => some ({ fs with st := fs.st.closeBy p }, { t with pc := 41 }, "close st")
   | 41 => some ({ fs with ol := fs.ol.closeBy p }, { t with pc := 42 }, "close ol")
